@@ -84,17 +84,18 @@ impl VersionSpec {
     fn split_and_parts(spec: &str) -> Vec<&str> {
         let mut parts = Vec::new();
         let mut current_start = 0;
-        let chars: Vec<char> = spec.chars().collect();
+        // Work on bytes: the separators are ASCII, and the indices are used to slice `spec`
+        let chars = spec.as_bytes();
         let mut i = 0;
 
         while i < chars.len() {
-            if chars[i] == ' ' {
+            if chars[i] == b' ' {
                 // Check if this space is part of a range operator or separator
                 let before = &spec[current_start..i].trim();
                 if !before.is_empty() {
                     // Check if this might be a hyphen range separator " - "
                     // Look ahead for " - " pattern
-                    if i + 2 < chars.len() && chars[i + 1] == '-' && chars[i + 2] == ' ' {
+                    if i + 2 < chars.len() && chars[i + 1] == b'-' && chars[i + 2] == b' ' {
                         // This is a hyphen range, skip to after " - "
                         i += 3;
                         continue;
